@@ -152,6 +152,10 @@ pub enum AAction {
     CurrencyPairsChange { add: bool, pair: u8 },
     /// a rollup data submission large enough to matter for the block size limits
     BigRollup { rollup: u8, len: u32, fee: u8 },
+    /// an `IbcRelay` action that passes construction for an IBC relayer but cannot be applied
+    /// (client upgrade with empty proofs; `client` selects an existing or a missing client):
+    /// fatal before Blackburn, a "failed but included" transaction after it
+    BadIbcRelay { client: u8 },
 }
 
 #[derive(Clone, Debug, Serialize, Deserialize, PartialEq, Eq)]
@@ -485,7 +489,27 @@ fn sudo_unbundleable_action() -> BoxedStrategy<AAction> {
 }
 
 pub fn atx(bias: &Bias) -> BoxedStrategy<ATx> {
-    let general = proptest::collection::vec(general_action(bias), 1..=bias.max_actions);
+    let general = (
+        proptest::collection::vec(general_action(bias), 1..=bias.max_actions),
+        prop::bool::weighted(0.07),
+        any::<u8>(),
+    )
+        .prop_map(|(mut actions, with_relay, sel)| {
+            if with_relay {
+                let at = if sel % 4 == 0 {
+                    sel as usize % (actions.len() + 1)
+                } else {
+                    actions.len()
+                };
+                actions.insert(
+                    at,
+                    AAction::BadIbcRelay {
+                        client: sel / 4,
+                    },
+                );
+            }
+            actions
+        });
     let admin = bridge_admin_action().prop_map(|a| vec![a]);
     let sudo_b = proptest::collection::vec(sudo_bundleable_action(bias), 1..=3);
     let sudo_u = sudo_unbundleable_action().prop_map(|a| vec![a]);
@@ -874,6 +898,13 @@ pub fn concretize(atx: &ATx, view: &View, pre: &Dump, built_so_far: &[BuiltTx], 
         }
     };
     let auto = || -> usize {
+        if atx.actions.iter().any(|a| matches!(a, AAction::BadIbcRelay { .. })) {
+            let from = atx.from as usize % N_KEYS;
+            let relayers = || (0..N_KEYS).map(|i| (from + i) % N_KEYS).filter(|k| view.relayers[*k]);
+            if let Some(k) = relayers().find(|k| view.bridges[*k].is_none()).or_else(|| relayers().next()) {
+                return k;
+            }
+        }
         match first {
             AAction::BridgeUnlock { bridge, .. }
             | AAction::BridgeTransfer { from: bridge, .. }
@@ -1261,6 +1292,7 @@ pub fn concretize(atx: &ATx, view: &View, pre: &Dump, built_so_far: &[BuiltTx], 
                     action::CurrencyPairsChange::Removal(set)
                 })
             }
+            AAction::BadIbcRelay { client } => Action::Ibc(bad_ibc_relay(*client)),
             AAction::ValidatorUpdate { key, power } => {
                 if repair && signer != view.sudo {
                     continue;
@@ -1310,6 +1342,87 @@ pub fn concretize(atx: &ATx, view: &View, pre: &Dump, built_so_far: &[BuiltTx], 
 // ---------------------------------------------------------------------------------------------
 // reference model of what a concrete action moves and charges
 // ---------------------------------------------------------------------------------------------
+
+/// `MsgUpgradeClient` with empty proofs for the seeded client (`client % 2 == 0`) or for a client
+/// that does not exist: well formed, accepted at construction from a relayer, never applicable.
+pub fn bad_ibc_relay(client: u8) -> penumbra_ibc::IbcRelay {
+    use ibc_proto::{
+        google::protobuf::{
+            Any,
+            Timestamp,
+        },
+        ibc::{
+            core::commitment::v1::{
+                MerkleProof as RawMerkleProof,
+                MerkleRoot as RawMerkleRoot,
+            },
+            lightclients::tendermint::v1::{
+                ClientState as RawTmClientState,
+                ConsensusState as RawConsensusState,
+            },
+        },
+    };
+    use ibc_types::{
+        core::client::{
+            msgs::MsgUpgradeClient,
+            ClientId,
+            ClientType,
+        },
+        lightclients::tendermint::{
+            client_state::{
+                AllowUpdate,
+                ClientState,
+                TENDERMINT_CLIENT_STATE_TYPE_URL,
+            },
+            consensus_state::TENDERMINT_CONSENSUS_STATE_TYPE_URL,
+            TrustThreshold,
+        },
+    };
+    use prost::Message as _;
+    let client_state = ClientState::new(
+        ibc_types::core::connection::ChainId::new("counterparty".to_string(), 2),
+        TrustThreshold::TWO_THIRDS,
+        std::time::Duration::from_secs(1),
+        std::time::Duration::from_secs(64_000),
+        std::time::Duration::from_secs(1),
+        IbcHeight::new(2, 20 + u64::from(client)).unwrap(),
+        vec![ibc_proto_proof_spec()],
+        vec![],
+        AllowUpdate {
+            after_expiry: true,
+            after_misbehaviour: true,
+        },
+        None,
+    )
+    .unwrap();
+    let raw_consensus_state = RawConsensusState {
+        timestamp: Some(Timestamp {
+            seconds: 1,
+            nanos: 0,
+        }),
+        root: Some(RawMerkleRoot::default()),
+        next_validators_hash: vec![],
+    };
+    let client_id = if client % 2 == 0 {
+        ClientId::new(ClientType::new("07-tendermint".to_string()), 0).unwrap()
+    } else {
+        ClientId::new(ClientType::new("missing-client".to_string()), u64::from(client)).unwrap()
+    };
+    penumbra_ibc::IbcRelay::UpgradeClient(MsgUpgradeClient {
+        client_id,
+        client_state: Any {
+            type_url: TENDERMINT_CLIENT_STATE_TYPE_URL.to_string(),
+            value: RawTmClientState::from(client_state).encode_to_vec(),
+        },
+        consensus_state: Any {
+            type_url: TENDERMINT_CONSENSUS_STATE_TYPE_URL.to_string(),
+            value: raw_consensus_state.encode_to_vec(),
+        },
+        proof_upgrade_client: RawMerkleProof::default(),
+        proof_upgrade_consensus_state: RawMerkleProof::default(),
+        signer: String::new(),
+    })
+}
 
 pub fn fee_row_and_size(action: &Action) -> Option<(&'static str, Denom, u128)> {
     Some(match action {
